@@ -128,6 +128,10 @@ impl<'tcx> Interp<'tcx> {
                             },
                             _ => 2,
                         }
+                    } else if bi.scalar && self.region_depth > 0 {
+                        // keep sign-fork partitions apart until the scalar region is left
+                        self.ret_key = if self.ret_key >= 250 { 3 } else { self.ret_key + 1 };
+                        self.ret_key.max(3)
                     } else {
                         2
                     };
@@ -325,6 +329,7 @@ impl<'tcx> Interp<'tcx> {
         let mut acc = Outcomes::new();
         let mut cur = st;
         let mut abstract_rounds = 0u32;
+        let mut abstract_mode = bi.cfg.primary_exit[h].is_none();
         let mut iters = 0u64;
         loop {
             iters += 1;
@@ -332,19 +337,39 @@ impl<'tcx> Interp<'tcx> {
                 self.over_budget = true;
                 return acc;
             }
-            let mut outs = self.exec_from(h, 0, &stop_iter, cur.clone(), true);
+            // a snapshot of the header state is only needed once the loop is analysed abstractly
+            let snap = if abstract_mode { Some(cur.clone()) } else { None };
+            let mut outs = self.exec_from(h, 0, &stop_iter, cur, true);
             let back = outs.take(Tgt::Block(h));
+            let took_primary = match bi.cfg.primary_exit[h] {
+                Some(p) => outs.at.iter().any(|(t, _)| *t == Tgt::Block(p)),
+                None => true,
+            };
             acc.merge(outs);
             let Some(back) = back else { break };
-            if back.leq(&cur) {
-                break;
+            match snap {
+                None => {
+                    // concrete unrolling: the loop's own continuation test was decided
+                    if took_primary {
+                        abstract_mode = true;
+                    }
+                    cur = back;
+                }
+                Some(prev) => {
+                    if back.leq(&prev) {
+                        break;
+                    }
+                    if !took_primary && bi.cfg.primary_exit[h].is_some() && self.concrete_progress(&prev, &back) {
+                        cur = back;
+                        continue;
+                    }
+                    abstract_rounds += 1;
+                    cur = if abstract_rounds > 3 { prev.widen(&back) } else { prev.join(&back) };
+                }
             }
-            if self.concrete_progress(&cur, &back) {
-                cur = back;
-                continue;
-            }
-            abstract_rounds += 1;
-            cur = if abstract_rounds > 3 { cur.widen(&back) } else { cur.join(&back) };
+        }
+        if self.trace_on && self.trace_pat == "LOOPS" {
+            eprintln!("TRACE loop {} h=bb{} iters={} abstract_rounds={} primary={:?}", bi.name, h, iters, abstract_rounds, bi.cfg.primary_exit[h]);
         }
         acc
     }
@@ -451,12 +476,12 @@ impl<'tcx> Interp<'tcx> {
             }
             if ok {
                 let k = (inst, key);
-                if let Some((v, viol)) = self.memo.get(&k).cloned() {
+                if let Some((vs, viol)) = self.memo.get(&k).cloned() {
                     self.memo_hits += 1;
                     for s in viol {
                         self.site_visit(&s, false, String::new());
                     }
-                    return Some(vec![(st, v)]);
+                    return Some(vs.into_iter().map(|v| (st.clone(), v)).collect());
                 }
                 memo_key = Some(k);
             }
@@ -485,7 +510,13 @@ impl<'tcx> Interp<'tcx> {
         st.frames.push(fr);
         self.stack.push(bi.clone());
         let saved_bb = (self.cur_bb, self.cur_call_bb);
+        let t0 = std::time::Instant::now();
         let outs = self.exec_from(0, 0, &[], st, true);
+        if !bi.scalar {
+            let e = self.prof.entry(bi.name.clone()).or_insert((0, 0));
+            e.0 += 1;
+            e.1 += t0.elapsed().as_nanos();
+        }
         self.cur_bb = saved_bb.0;
         self.cur_call_bb = saved_bb.1;
         self.stack.pop();
@@ -503,13 +534,14 @@ impl<'tcx> Interp<'tcx> {
         }
         if entering_region {
             let start = self.region_start.pop().unwrap();
+            self.next_atom = start;
             for p in parts.iter_mut() {
                 p.2 = p.2.strip_atoms(start as AtomId);
                 p.1.atoms.truncate(start);
             }
         }
         let mut out: Vec<(State, Val)> = Vec::new();
-        if bi.ret_bool && parts.len() > 1 {
+        if (bi.ret_bool || (self.region_depth > 0 && bi.scalar && parts.len() <= 4 && !entering_region)) && parts.len() > 1 {
             for (_, s, v) in parts {
                 out.push((s, v));
             }
@@ -523,7 +555,7 @@ impl<'tcx> Interp<'tcx> {
             out.push((s, v));
         }
         if let Some(k) = memo_key {
-            if out.len() == 1 && !self.over_budget {
+            if !out.is_empty() && !self.over_budget {
                 let newv: Vec<String> = self.sites.iter().filter(|(key, s)| s.violated && s.roots.contains(&self.cur_root) && !viol_before.contains(*key)).map(|(k, _)| k.clone()).collect();
                 // sites that were already violated before are replayed too if they belong to this callee
                 let mut all = newv;
@@ -532,7 +564,7 @@ impl<'tcx> Interp<'tcx> {
                         all.push(key.clone());
                     }
                 }
-                self.memo.insert(k, (out[0].1.clone(), all));
+                self.memo.insert(k, (out.iter().map(|o| o.1.clone()).collect(), all));
             }
         }
         Some(out)
